@@ -267,6 +267,9 @@ func (eng *Engine) solveAll(obls []*Obligation, timeoutMs int, all bool) {
 	byText := map[string][]*Obligation{}
 	var order []string
 	for _, o := range obls {
+		if o.Status != "" && len(o.Lines) == 0 {
+			continue // decided by the generator itself (shape, vacuity, contract fit)
+		}
 		t := smtText(o, false)
 		if _, ok := byText[t]; !ok {
 			order = append(order, t)
